@@ -1,6 +1,6 @@
 // @unit c13_ext_first property=C13 attach=typify-impl/src/convert.rs
-// @h c13_extension_answer_is_used tier=both
-// @h c13_no_extension_answer_falls_through tier=both
+// @h c13_extension_answer_is_used tier=both replay=none
+// @h c13_no_extension_answer_falls_through tier=both replay=none
 // @canary canary_c13_ext_first
 //
 // C13 -- "the extension is consulted before any structural conversion" and "when
